@@ -45,7 +45,7 @@ def rect(env, num_x, num_y):
         env.eq("C14", "getFullMesh from the right half reproduces the full mesh", env.call(getFullMesh, None, full[:, nyh - 1:, :]), full)
 
 
-@job("c14.crm", ("C14",), cfgs=[dict(num_x=2, num_y=5, s=0.0, c=0.0), dict(num_x=3, num_y=7, s=0.5, c=1.0), dict(num_x=5, num_y=5, s=0.0, c=0.3),    # several interior chordwise rows
+@job("c14.crm", ("C14", "C04"), cfgs=[dict(num_x=2, num_y=5, s=0.0, c=0.0), dict(num_x=3, num_y=7, s=0.5, c=1.0), dict(num_x=5, num_y=5, s=0.0, c=0.3),    # several interior chordwise rows
                                  dict(num_x=3, num_y=5, s=1.0, c=0.5, _tier=T)],
      ranges=RG, cost=5)
 def crm(env, num_x, num_y, s, c):
@@ -65,7 +65,7 @@ def crm(env, num_x, num_y, s, c):
     env.eq("C14", "CRM: mirror symmetry about y = 0", full[:, ::-1, :] * np.array([1, -1, 1]), full)
     env.eq("C14", "CRM: offset is a pure translation", full_off, full + off)
     env.eq("C14", "CRM: symmetric half mesh == left half of the full mesh", half, full[:, :nyh, :])
-    env.eq("C14", "CRM: getFullMesh(half) reproduces the full mesh", env.call(getFullMesh, half), full)
+    env.eq("C14,C04", "CRM: getFullMesh(half) reproduces the full mesh", env.call(getFullMesh, half), full)
 
 
 @job("c14.multi_section", ("C14",), cfgs=[dict(nsec=2, nx=2, ny=(3, 3), symmetry=True), dict(nsec=3, nx=2, ny=(3, 2, 3), symmetry=True),
